@@ -868,7 +868,7 @@ def _run_oset(kind, case, feats, probes):
                 raise Stop("%s.%s:type" % (kind, name), "%s: result is %r" % (ctx, res))
             rl = list(itertools.islice(iter(res), len(exp) + 2))
             ordered = name in ("or", "sub")
-            if (rl != exp) if ordered else (sorted(rl) != sorted(exp)):
+            if (rl != exp) if ordered else (sorted(rl, key=repr) != sorted(exp, key=repr)):
                 raise Stop("%s.%s:return" % (kind, name), "%s: result %r, model expects %r%s"
                            % (ctx, rl, exp, "" if ordered else " (as a set)"))
             rr = list(itertools.islice(reversed(res), len(exp) + 2))
@@ -938,7 +938,7 @@ def alphabet(kind, step):
                 ["update", [["modict", [[a, v], [a, v + 1]]]], [[b, v + 2]]],
                 ["create", [["pairs", [[a, v], [b, v + 1]]]], []], ["copy"], ["clear"], ["fromkeys", [b, a, b], v]]
     if kind == "oset":
-        a, b, c = "a", "b", "c"
+        a, b, c = "a", "b", ""       # one falsy member
         return [["add", a], ["add", b], ["add", c], ["discard", a], ["discard", b], ["remove", a], ["remove", c],
                 ["pop", None], ["pop", False], ["pop", True], ["clear"],
                 ["ior", "list", [c, a]], ["ior", "oset", [b]], ["iand", "oset", [b, a]], ["iand", "list", [c]],
@@ -964,7 +964,7 @@ def exh_inits(kind):
 def strategies(kind):
     ints = st.integers(0, 99)
     if kind == "oset":
-        el = st.sampled_from(["a", "b", "c", "d", "e", "f"])
+        el = st.sampled_from(["a", "b", "c", "d", "", 0, None, "e"])     # falsy members too
         elems = st.lists(el, max_size=5)
         form = st.sampled_from(["oset", "oset", "list", "self"])
         form2 = st.sampled_from(["oset", "oset", "oset", "list", "self"])
